@@ -113,7 +113,8 @@ pub fn scenario_peers_at(id: u64, seed: u64, _thorough: bool, starts: Option<Vec
         s.kick(d);
         ds.push(d);
         svcs.push(Svc {
-            ty: "_http._tcp.local.".into(),
+            // (every other scenario: registered under a subtype - the goodbye withdraws the subtype PTR under the name in use)
+            ty: if id % 2 == 0 { "_printer._sub._http._tcp.local.".into() } else { "_http._tcp.local.".into() },
             inst: inst.to_string(),
             host: if same_host { host.to_string() } else { format!("own{}.local.", k) },
             addrs: if dual { vec![v4(192, 168, 1, 10 + k as u8), v6k(k as u8)] } else { vec![v4(192, 168, 1, 10 + k as u8)] },
